@@ -31,6 +31,8 @@ func main() {
 	switch os.Args[1] {
 	case "seq":
 		cmdSeq(os.Args[2:])
+	case "replay":
+		cmdReplay(os.Args[2:])
 	default:
 		die(2, "unknown driver %q", os.Args[1])
 	}
